@@ -160,9 +160,13 @@ class Engine:
             return len(t[1]) > 0
         if k == "attr" and t[1] == ("attr", STATE, "update_flags") and t[2] in FLAGS:
             self.preds_seen.add("F." + t[2])
+            if self.val["F." + t[2]] is None:
+                return p.assumed(t)
             return self.val["F." + t[2]]
         if t == CO_TAG:
             self.preds_seen.add("CO")
+            if self.val["CO"] is None:
+                return p.assumed(t)
             return self.val["CO"]
         if k == "cmp" and t[1] in ("is", "is not") and (t[3] == UNDEF or t[2] == UNDEF):
             x = t[2] if t[3] == UNDEF else t[3]
@@ -170,9 +174,13 @@ class Engine:
             if x == OLD:
                 self.preds_seen.add("OU")
                 r = self.val["OU"]
+                if r is None:
+                    return p.assumed(t)
             elif x == NEW:
                 self.preds_seen.add("NU")
                 r = self.val["NU"]
+                if r is None:
+                    return p.assumed(t)
             elif x == UNDEF:
                 r = True
             elif isinstance(x, tuple) and x and x[0] in ("clone", "list", "dict", "tuple", "new", "attr", "const", "call", "mcall", "listcomp"):
@@ -687,6 +695,11 @@ def valuations():
     names = ["F.create", "F.fix", "F.trim", "F.update", "OU", "NU", "CO"]
     for bits in itertools.product([False, True], repeat=len(names)):
         yield dict(zip(names, bits))
+
+
+UNKNOWN = {"F.create": None, "F.fix": None, "F.trim": None, "F.update": None, "OU": None, "NU": None, "CO": None}
+"""Valuation that fixes nothing: every tracked predicate is forked on (and recorded
+as a path assumption) - used for functions outside the operation methods."""
 
 
 def val_str(v: Dict[str, bool]) -> str:
